@@ -97,6 +97,10 @@ static std::vector<Event> g_events; // events of the current op (coalesced)
 static std::string g_base;          // path of the snapshot file ("" = nothing tracked)
 static std::atomic<unsigned long> g_nWrite{0}, g_nOpen{0}, g_nRename{0}, g_nTrunc{0}, g_nUnlink{0};
 
+// optional hook of a harness: called with the kind ("snap" | "log" | "tmp") of a tracked file right BEFORE it is opened ("open") or
+// renamed ("rename"); c11_jfs.cpp parks its second thread there (schedule gate of the `jbgflush` op)
+static void (*g_fileHook)(const char *what, const char *kind) = nullptr;
+
 static std::string kindOfPath(const char *p)
 {
   if (!p || g_base.empty()) return "";
@@ -280,6 +284,7 @@ extern "C"
     std::string k = kvh::kindOfPath(path);
     if (k.empty()) return;
     kvh::g_nOpen++;
+    if (kvh::g_fileHook) kvh::g_fileHook("open", k.c_str());
     if (trunc) kvh::record({'T', k, "", "", 0});
     else if (create && !kvh::pathExists(path)) kvh::record({'A', k, "", "", 0});
   }
@@ -344,6 +349,7 @@ extern "C"
     if (!ka.empty() || !kb.empty())
     {
       kvh::g_nRename++;
+      if (kvh::g_fileHook) kvh::g_fileHook("rename", ka.empty() ? kb.c_str() : ka.c_str());
       kvh::record({'R', ka.empty() ? "?" : ka, kb.empty() ? "?" : kb, "", 0});
     }
     return real(a, b);
